@@ -4,18 +4,23 @@ Records which checks catch the change in seeded/<id>/meta.json (development tool
 import sys, subprocess, os, json, time, re
 sid, tier, props = sys.argv[1], sys.argv[2], sys.argv[3:]
 d = f'/verif/seeded/{sid}'
-assert subprocess.run(['git', '-C', '/repo', 'status', '--porcelain', '--untracked-files=no'], capture_output=True, text=True).stdout.strip() == '', "/repo not clean"
-subprocess.run(['git', '-C', '/repo', 'apply', f'{d}/patch.diff'], check=True)
+# mutations are applied to a scratch worktree (VERIF_REPO), never to /repo itself, so that checks of the real tree can run meanwhile
+WT = os.environ.get('VP_SEED_WT', '/tmp/wt_seed')
+if not os.path.isdir(WT):
+    subprocess.run(['git', '-C', '/repo', 'worktree', 'add', '-q', '--detach', WT, 'HEAD'], check=True)
+subprocess.run(['git', '-C', WT, 'checkout', '-q', '--detach', subprocess.run(['git', '-C', '/repo', 'rev-parse', 'HEAD'], capture_output=True, text=True).stdout.strip()], check=True)
+subprocess.run(['git', '-c', 'submodule.recurse=false', '-C', WT, 'checkout', '--', 'gmlc', 'tests'], check=True)
+subprocess.run(['git', '-C', WT, 'apply', f'{d}/patch.diff'], check=True)
 res = {}
 try:
     for p in props:
         t0 = time.time()
-        r = subprocess.run(['python3', '/verif/vcheck.py', p, '--tier', tier], capture_output=True, text=True, env=dict(os.environ, VP_DEV='1'))
+        r = subprocess.run(['python3', '/verif/vcheck.py', p, '--tier', tier], capture_output=True, text=True, env=dict(os.environ, VP_DEV='1', VERIF_REPO=WT))
         viol = re.findall(r'query=(\S+): (.*)', r.stdout)
         res[p] = dict(exit=r.returncode, seconds=round(time.time() - t0), violations=[f"{q} {t[:120]}" for q, t in viol][:8], summary=r.stdout.strip().split('\n')[-1])
         print(sid, p, tier, 'exit', r.returncode, res[p]['summary']); [print('   ', v) for v in res[p]['violations'][:4]]
 finally:
-    subprocess.run(['git', '-C', '/repo', 'checkout', '--', '.'], check=True)
+    subprocess.run(['git', '-c', 'submodule.recurse=false', '-C', WT, 'checkout', '--', 'gmlc', 'tests'], check=True)
 mp = f'{d}/meta.json'
 m = json.load(open(mp)) if os.path.exists(mp) else {}
 m.setdefault('checks_run', {})[tier] = res
